@@ -220,7 +220,7 @@ func (s *Sim) linked(a, b p2p.PeerID) bool {
 // ---- p2p.VerifTransport ---------------------------------------------------------------------------------------
 
 func (s *Sim) Publish(from p2p.PeerID, topic string, data []byte) error {
-	if s.Adv != nil && from == s.Adv.Shadow.Peer && topic == "postBlock" {
+	if s.Adv != nil && s.Adv.IsHead(from) && topic == "postBlock" {
 		return nil // the adversary decides itself who receives its blocks (and forwards nothing)
 	}
 	s.omu.Lock()
